@@ -296,3 +296,76 @@ def raw_frames(rng, cpay, p):
         else:
             out.append(v)
     return out
+
+
+# ---------------------------------------------------------------------------
+# raw requests for the admission / completion properties (C12, C15)
+# ---------------------------------------------------------------------------
+
+UPGRADE_HDRS = [
+    [],
+    [['Upgrade', 'websocket'], ['Connection', 'Upgrade']],
+    [['Upgrade', 'websocket']],
+    [['Connection', 'keep-alive, Upgrade'], ['Upgrade', 'WebSocket']],
+    [['Upgrade', 'h2c'], ['Connection', 'Upgrade, HTTP2-Settings']],
+]
+RAW_BODIES = ['', '4raw', '6', '3', '1', 'garbage', '4a\x1e4b', '\x1e',
+              'b!!', '9', '4' + 'x' * 300, 'd=4form', '4😀']
+
+
+def raw_request(rng, t, malformed=False):
+    """One request drawn from the admission cross product."""
+    method = rng.choice(['GET', 'GET', 'GET', 'POST', 'POST', 'OPTIONS',
+                         'PUT', 'DELETE'])
+    parts = ['c={c}']
+    tr = rng.choice([None, 'polling', 'polling', 'websocket', 'bogus'])
+    if tr:
+        parts.append('transport=' + tr)
+    eio = rng.choice([None, '3', '4', '4', '4'])
+    if eio:
+        parts.append('EIO=' + eio)
+    sidk = rng.choice(['absent', 'own', 'own', 'own', 'unknown', 'other'])
+    if sidk == 'own':
+        parts.append('sid={sid}')
+    elif sidk == 'unknown':
+        parts.append('sid=AAAAAAAAAAAAAAAAAAAA')
+    elif sidk == 'other':
+        parts.append('sid={other}')
+    j = rng.choice([None, None, None, '3', 'abc', '-1'])
+    if j is not None:
+        parts.append('j=' + j)
+    rng.shuffle(parts)
+    hdrs = rng.choice(UPGRADE_HDRS + [[], [], []])
+    r = {'t': t, 'method': method, 'query': '&'.join(parts),
+         'headers': [list(h) for h in hdrs], 'sidk': sidk}
+    names = {h[0].lower(): h[1].lower() for h in hdrs}
+    if method == 'GET' and names.get('upgrade') == 'websocket' and \
+            'upgrade' in names.get('connection', ''):
+        r['ws'] = True
+        r['hold'] = rng.choice([2, 8, 64])
+    if method in ('POST', 'PUT'):
+        body = rng.choice(RAW_BODIES)
+        r['body'] = body
+        if malformed and rng.random() < 0.3:
+            r['declared'] = rng.choice([0, 1, len(body) + 5, 10 ** 9])
+    return r
+
+
+def add_raw_requests(rng, plan, per_session=(1, 5), span=6.0,
+                     malformed=False):
+    for s in plan['sessions']:
+        n = rng.randint(*per_session)
+        raws = list(s.get('raw', []))
+        for _ in range(n):
+            t_up = None
+            ups = s.get('upgrades') or []
+            if ups:
+                t_up = ups[0]['t']
+            t = _near(rng, span, t_up)
+            e = s.get('end')
+            if e and rng.random() < 0.4:
+                # right after the session ended: closed-but-not-reaped
+                t = e['t'] + rng.choice([1, 2, 3, 8, 64]) * TICK
+            raws.append(raw_request(rng, t, malformed))
+        s['raw'] = sorted(raws, key=lambda r: r['t'])
+    return plan
